@@ -4,6 +4,7 @@ import (
 	"strings"
 
 	"github.com/nelhage/taktician/bitboard"
+	"github.com/nelhage/taktician/ptn"
 	"github.com/nelhage/taktician/tak"
 )
 
@@ -51,6 +52,11 @@ func wfBoard(r tak.VerifRaw) bool {
 }
 
 func init() {
+	// ptn.ResultFromGame panics when the game is not over (execLine maps that to "panic")
+	opTable["result"] = func(s *Session, a []string) string {
+		return ptn.ResultFromGame(decPos(a[0])).Result
+	}
+	opTable["sresult"] = opTable["result"]
 	opTable["wfb"] = func(s *Session, a []string) string {
 		f := strings.Split(a[0], "/")
 		if len(f) != 18 {
